@@ -188,8 +188,8 @@ def main(chk):
                    workers=tlc.NPROC)
     else:
         run_family(chk, rng, "hand-made-2-shards", hm, 2, 2, 6, out)
-        run_family(chk, rng, "random-2-shards", [random_profile(rng, 2, 2, 2, i) for i in range(24)], 2, 2, 5, out)
-        run_family(chk, rng, "3-shards", hm3 + [random_profile(rng, 3, 3, 2, i) for i in range(10)], 3, 3, 5, out)
+        run_family(chk, rng, "random-2-shards", [random_profile(rng, 2, 2, 2, i) for i in range(16)], 2, 2, 5, out)
+        run_family(chk, rng, "3-shards", hm3 + [random_profile(rng, 3, 3, 2, i) for i in range(6)], 3, 3, 4, out)
         run_family(chk, rng, "model-check-only", hm + [random_profile(rng, 2, 2, 2, 100 + i) for i in range(120)], 2, 2, 7, out, dump=False,
                    workers=tlc.NPROC)
         run_family(chk, rng, "model-check-only-3-shards", hm3 + [random_profile(rng, 3, 3, 2, 100 + i) for i in range(60)], 3, 3, 6, out,
